@@ -50,7 +50,8 @@ LEVEL_TEXT = ('Proved for every option set and every report: output() never trip
               'not on batch/colour/level/JSON; colour escapes strip to the plain lines; JSON mode leaves exactly one entry, the document, at every level, and stdout of a completed JSON audit is exactly that document '
               'for every option set without -d; on stdout (verbose messages included) raising the level only deletes lines whenever the level-L report is non-empty. The remaining deviations are proved '
               'as negations with witnesses (D32-empty: an empty report is written as one blank line; D05: error text after the JSON document). The model is compared with the real output() on generated peers over all 72 option sets, '
-              'with the real OutputBuffer on random call sequences and with the real main() over scripted peers.')
+              'with the real OutputBuffer on random call sequences and with the real main() over scripted peers.'
+              " Extension (Props/C15JsonDoc, 44 theorems): an exact model of json.dumps (compact and indent=4, sort_keys, ensure_ascii) and of the value tree build_struct makes — for every value both forms parse back to the same key-sorted value, the compact form is one printable-ASCII line, dumps is injective, the document's names / notes / size fields are those of the report model; main() -j / -jj stdout is compared byte for byte.")
 LEVEL_NOTE = ('Trusted: Lean kernel, harness, fakenet. The report data (notes, status, recommendations) is the C01-C04/C13 model and takes no output option; the JSON document is an opaque input of the '
               'presentation model (its notes: C03.json_eq_text_fail_warn and json_info_perm_text). The finding carried by a printed line is tied to its text by finding_text (shape of the line), '
               'the decoding of real text back into records is done by the oracle, not proved. Colour strip assumes texts without ESC characters and gives a permutation for the sorted recommendation '
